@@ -105,7 +105,62 @@ def oracle_probe(c, kbpk, s, G, ml):
             return
 
 
+def alternative_macs(ver, kbpk, G, hl, ml):
+    """MACs a holder of the KBPK could compute over the same block by another rule than the standard's - another edition's, another
+    key of the hierarchy, another encoding of the same data, another truncation: [(label, MAC bytes)]. None of them authenticates."""
+    import ref_tr31
+    import ref_mac
+    from cryptography.hazmat.primitives import cmac as _cmac
+    from cryptography.hazmat.primitives.ciphers import algorithms as _alg
+    bs = VERS[ver][0]
+    hdr = G[:hl].encode()
+    enc_hex = G[hl:len(G) - 2 * ml]
+    enc = bytes.fromhex(enc_hex)
+    kbek, kbak = ref_tr31.derive(ver, kbpk)
+    clear = ref_tr31.clear_key_data(ver, kbpk, G, hl, ml)
+    out = []
+    datas = {"header + ciphertext bytes": hdr + enc, "header + ciphertext hex text": hdr + enc_hex.encode(), "header + lower-case hex text": hdr + enc_hex.lower().encode(),
+             "header + clear key data": hdr + clear, "ciphertext only": enc, "header only": hdr, "fixed 16 header characters + ciphertext": hdr[:16] + enc,
+             "header text as hex + ciphertext": hdr.hex().upper().encode() + enc}
+    keys = {"KBAK": kbak, "KBEK": kbek, "KBPK": kbpk}
+    for dl, data in datas.items():
+        for kl, k in keys.items():
+            tk = k if len(k) in (8, 16, 24) else None
+            if ver != "D" and tk:
+                full = ref_mac.mac1("des", tk, data, 1)
+                for tl, t in (("leftmost", full[:ml]), ("rightmost", full[-ml:])):
+                    out.append((f"TDES CBC-MAC (padding 1) under {kl} over {dl}, {tl} bytes", t))
+                out.append((f"TDES CBC-MAC (padding 2) under {kl} over {dl}", ref_mac.mac1("des", tk, data, 2)[:ml]))
+            try:
+                c_ = _cmac.CMAC(_alg.AES(k) if ver == "D" else _alg.TripleDES(k if len(k) == 24 else (k + k[:8] if len(k) == 16 else k * 3)))
+                c_.update(data)
+                out.append((f"CMAC under {kl} over {dl}", c_.finalize()[:ml]))
+            except Exception:  # noqa: BLE001
+                pass
+    genuine = bytes.fromhex(G[len(G) - 2 * ml:])
+    seen, uniq = {genuine}, []
+    for label, t in out:
+        if len(t) == ml and t not in seen:
+            seen.add(t)
+            uniq.append((label, t))
+    return uniq
+
+
 def generate(rng, tier, seed):
+    # blocks carrying, instead of the standard's MAC, a MAC computed by another rule over the same data under a key of the same hierarchy
+    for ver, (bs, ksizes, ml) in VERS.items():
+        for ksize in ksizes:
+            if ksize == 8:
+                continue
+            kbpk = rb(rng, ksize)
+            key = rb(rng, 16)
+            G = tr31.wrap(kbpk, make_header(rng, ver, rand_blocks(rng, rng.randrange(0, 2), [0, 3, 8])), key, None)
+            hl = tr31.Header().load(G)
+            for label, t in alternative_macs(ver, kbpk, G, hl, ml):
+                s_ = G[:len(G) - 2 * ml] + t.hex().upper()
+                c = Case(f"{ver}:alternative-mac", {"rule": label})
+                check_verdict(c, unwrap_case(c, kbpk, s_), s_, G, hl, key)
+                yield c
     from props.tr31util import digit_payload_cases
     yield from digit_payload_cases(rng)
     from props.tr31util import boundary_cases
